@@ -244,7 +244,7 @@ def realise_positions(rng, matrix, site_frac, radii, inner_fraction, states, inn
             R = radii[s]
             f = inner_fraction
             if inner[t, a] >= 0:
-                lo, hi = 0.0, (1 - margin) * f * R
+                lo, hi = 0.02 * f * R, (1 - margin) * f * R
             else:
                 lo, hi = (1 + margin) * f * R, (1 - margin) * R
                 if lo > hi:
